@@ -49,8 +49,9 @@ def acyclic(n, edges):
     return seen == n
 
 
-def build(n, edges, ctxs, enum_leaves, nfiles, tag, external=False):
-    """edges: list of (i, j) meaning Ti has a field of a type mentioning Tj; ctxs: per-edge context index"""
+def build(n, edges, ctxs, enum_leaves, nfiles, tag, external=False, emit=()):
+    """edges: list of (i, j) meaning Ti has a field of a type mentioning Tj; ctxs: per-edge context index;
+    emit: nodes that are ALSO the payload of an emitted event (a payload type can be a dependency of a command type)"""
     names = ["%sN%d" % (tag, i) for i in range(n)]
     out_edges = {i: [] for i in range(n)}
     for k, (i, j) in enumerate(edges):
@@ -68,6 +69,9 @@ def build(n, edges, ctxs, enum_leaves, nfiles, tag, external=False):
     cmd = rg.command_src("root_%s" % tag.lower(), [("p%d" % i, names[i]) for i in range(n)], "Vec<%s>" % names[0])
     cmd += rg.command_src("opt_%s" % tag.lower(), [("o", "Option<Vec<%s>>" % names[n - 1])], names[n - 1])
     body.setdefault("m0.rs", []).append(cmd)
+    for i in emit:
+        body.setdefault("m%d.rs" % ((i + 1) % nfiles), []).append(
+            "pub fn emit_%s_%d(app: tauri::AppHandle, p: %s) {\n    app.emit(\"ev-%s-%d\", p).unwrap();\n}\n\n" % (tag.lower(), i, names[i], tag.lower(), i))
     return [(p, rg.PRELUDE + "".join(v)) for p, v in body.items()], names
 
 
@@ -114,7 +118,8 @@ def scan(out):
 def run_case(a):
     cli, key, n, edges, ctxs, enum_leaves, nfiles, seeds = a[:8]
     external = len(a) > 8 and a[8]
-    files, names = build(n, edges, ctxs, enum_leaves, nfiles, "G", external)
+    emit = a[9] if len(a) > 9 else ()
+    files, names = build(n, edges, ctxs, enum_leaves, nfiles, "G", external, emit)
     cfg = {"type_mappings": {"Uuid": "string", "DateTime<Utc>": "string"}} if external else None
     orders = set()
     viol = []
@@ -171,7 +176,10 @@ def run(tier):
                 continue
             for c in range(nctx):
                 # every other context additionally gives some structs fields of foreign types covered by type_mappings
-                jobs.append((cli, ("exh", n, tuple(edges), c), n, edges, [c] * len(edges), n >= 3, min(n, 2 + c % 2), seeds_fixed, c % 2 == 1))
+                # ... and two of every three contexts make some nodes event payloads as well: the depended-upon nodes only, or every second node
+                depended = sorted({j for (_, j) in edges})
+                emit = () if c % 3 == 0 else tuple(depended[: 1 + c % 2]) if c % 3 == 1 else tuple(i for i in range(n) if i % 2 == 1)
+                jobs.append((cli, ("exh", n, tuple(edges), c), n, edges, [c] * len(edges), n >= 3, min(n, 2 + c % 2), seeds_fixed, c % 2 == 1, emit))
     exhaustive_jobs = len(jobs)
     # sampled larger DAGs with mixed contexts
     nsamp = 100 if tier == "quick" else 3000
@@ -188,7 +196,8 @@ def run(tier):
         if not edges:
             continue
         ctxs = [rnd.randrange(len(CTX)) for _ in edges]
-        jobs.append((cli, ("rnd", s), n, edges, ctxs, True, rnd.randint(1, 3), seeds_fixed[: max(4, nseeds // 2)], rnd.random() < 0.5))
+        jobs.append((cli, ("rnd", s), n, edges, ctxs, True, rnd.randint(1, 3), seeds_fixed[: max(4, nseeds // 2)], rnd.random() < 0.5,
+                     tuple(i for i in range(n) if rnd.random() < 0.35)))
     res = common.pmap(run_case, jobs, chunksize=2)
     total_orders = 0
     multi = 0
@@ -200,6 +209,10 @@ def run(tier):
         v.case(key, nontrivial=len(job[3]) >= 1, sample={"nodes": job[2], "edges": job[3], "contexts": [CTX[c][0] for c in job[4]], "distinct_schema_orders": r["orders"]})
         v.count("process_runs", r["runs"])
         v.count("runs_blocked", r["blocked"])
+        if len(job) > 9 and job[9]:
+            v.count("graphs_with_event_payload_nodes")
+            if {j for (_, j) in job[3]} & set(job[9]):
+                v.count("graphs_where_a_payload_type_is_a_dependency")
         total_orders += r["orders"]
         if r["orders"] > 1:
             multi += 1
